@@ -42,21 +42,33 @@ func (gs GenerateSettings) aliased(simpleTyp string) string {
 	return simpleTyp
 }
 
+// usedTypes lists the types named by the definitions this file emits; definitions
+// merged in from a separately generated import (they carry a namespace) are not
+// emitted here and do not count.
 func (f File) usedTypes() map[string]bool {
 	out := make(map[string]bool)
 	for _, st := range f.Structs {
+		if st.Namespace != "" {
+			continue
+		}
 		stOut := st.usedTypes()
 		for k, v := range stOut {
 			out[k] = v
 		}
 	}
 	for _, msg := range f.Messages {
+		if msg.Namespace != "" {
+			continue
+		}
 		msgOut := msg.usedTypes()
 		for k, v := range msgOut {
 			out[k] = v
 		}
 	}
 	for _, union := range f.Unions {
+		if union.Namespace != "" {
+			continue
+		}
 		unionOut := union.usedTypes()
 		for k, v := range unionOut {
 			out[k] = v
